@@ -176,6 +176,7 @@ def run(ctx) -> None:
   ctx.rule('R2', 'lock-order graph (nesting + Pythia re-entry) is acyclic; acquisitions are `with`', 2)
   ctx.rule('R3', 'datastores access shared state only inside a single `with self._lock` region per '
            'public method and never call their own public methods', 40)
+  ctx.rule('R4', 'all acquisitions of one lock table are keyed by the same kind of resource name (owner / study / trial)', 12)
   tables = lock_tables(svc)
   if len(tables) < 3:
     raise AnalysisError(f'lock tables of the servicer not found (got {sorted(tables)})')
@@ -226,6 +227,112 @@ def run(ctx) -> None:
                 func=fi.qualname)
   r2_lock_order(ctx, svc, tables)
   r3_datastores(ctx, svc)
+  r4_lock_keys(ctx, svc, tables)
+
+
+# ----------------------------------------------------------------------- R4
+_KIND_OF_PARAM = {'study_name': 'study', 'trial_name': 'trial', 'owner_name': 'owner'}
+_KIND_OF_RESOURCE = {'StudyResource': 'study', 'TrialResource': 'trial', 'OwnerResource': 'owner'}
+
+
+def _name_kinds(ctx, svc: Svc, fi: FuncInfo) -> Dict[str, Set[str]]:
+  """expression text -> resource kinds it names, from how the function uses it.
+
+  Evidence: passed as the first argument to a datastore method / servicer helper whose first
+  parameter is called study_name / trial_name / owner_name; passed to XResource.from_name;
+  defined as `<...>.study_resource.name` / `.owner_resource.name` / `XResource(..).name`.
+  Aliases (v = request.parent) share the kinds of what they alias.
+  """
+  kinds: Dict[str, Set[str]] = {}
+  alias: Dict[str, str] = {}
+  ds = ctx.index.need_class('vizier._src.service.datastore.DataStore')
+  for n in ast.walk(fi.node):
+    if isinstance(n, ast.Assign) and len(n.targets) == 1 and isinstance(n.targets[0], ast.Name):
+      v, e = n.targets[0].id, n.value
+      t = unparse(e, 0)
+      if isinstance(e, ast.Attribute) and e.attr == 'name':
+        inner = unparse(e.value, 0)
+        if inner.endswith('study_resource') or 'StudyResource' in inner.split('(')[0]:
+          kinds.setdefault(v, set()).add('study')
+        elif inner.endswith('owner_resource') or 'OwnerResource' in inner.split('(')[0]:
+          kinds.setdefault(v, set()).add('owner')
+        elif inner.endswith('trial_resource') or 'TrialResource' in inner.split('(')[0]:
+          kinds.setdefault(v, set()).add('trial')
+      elif isinstance(e, (ast.Attribute, ast.Name)):
+        alias[v] = t
+    if isinstance(n, ast.Call) and n.args:
+      a0 = unparse(n.args[0], 0)
+      d = dotted(n.func) or ''
+      last = d.rsplit('.', 1)[-1]
+      m = svc.ds_call(n)
+      if m is not None and m in ds.methods:
+        ps = [p for p in ds.methods[m].params if p != 'self']
+        if ps and ps[0] in _KIND_OF_PARAM:
+          kinds.setdefault(a0, set()).add(_KIND_OF_PARAM[ps[0]])
+      elif last == 'from_name':
+        cls = d.rsplit('.', 2)[-2] if d.count('.') else ''
+        if cls in _KIND_OF_RESOURCE:
+          kinds.setdefault(a0, set()).add(_KIND_OF_RESOURCE[cls])
+      elif d.startswith('self.') and d.count('.') == 1 and last in svc.servicer.methods:
+        ps = [p for p in svc.servicer.methods[last].params if p != 'self']
+        if ps and ps[0] in _KIND_OF_PARAM:
+          kinds.setdefault(a0, set()).add(_KIND_OF_PARAM[ps[0]])
+  # propagate through aliases (both directions: same value)
+  for _ in range(3):
+    for v, t in alias.items():
+      u = kinds.get(v, set()) | kinds.get(t, set())
+      if u:
+        kinds[v] = set(u)
+        kinds[t] = set(u)
+  return kinds
+
+
+def r4_lock_keys(ctx, svc: Svc, tables: Set[str]) -> None:
+  """All acquisitions of one lock table are keyed by the same kind of resource name.
+
+  The tables are defaultdicts: a key of another kind (a trial name where the study name is
+  meant) silently creates a fresh, private lock, so the region no longer excludes anybody.
+  """
+  sites = []  # (table, kind set, fi, with node, key text)
+  for name, fi in svc.rpcs.items():
+    kinds = None
+    for n in ast.walk(fi.node):
+      if not isinstance(n, ast.With):
+        continue
+      for item in n.items:
+        e = item.context_expr
+        if not isinstance(e, ast.Subscript):
+          continue
+        d = dotted(e.value)
+        if not (d and d.startswith('self.') and d[5:] in tables):
+          continue
+        if kinds is None:
+          kinds = _name_kinds(ctx, svc, fi)
+        key = unparse(e.slice, 0)
+        sites.append((d[5:], frozenset(kinds.get(key, set())), fi, n, key))
+  if len(sites) < 12:
+    raise AnalysisError(f'only {len(sites)} keyed lock acquisitions found (15 on the pinned tree)')
+  by_table: Dict[str, Dict[str, int]] = {}
+  for t, ks, fi, n, key in sites:
+    if len(ks) == 1:
+      k = next(iter(ks))
+      by_table.setdefault(t, {}).setdefault(k, 0)
+      by_table[t][k] += 1
+  for t, ks, fi, n, key in sites:
+    votes = by_table.get(t, {})
+    if not votes:
+      ctx.info(f'R4: no classified key for lock table {t}')
+      continue
+    major = max(votes, key=lambda k: votes[k])
+    if not ks:
+      ctx.ok('R4', f'{fi.name}: {t}[{key}]', where(fi, n), 'key kind not classifiable from its uses (no evidence against)')
+      continue
+    ctx.check(ks == {major}, 'R4', f'{fi.name}: {t}[{key}]', where(fi, n),
+              f'key names a {major} like the other {votes[major]} acquisitions of this table',
+              f'`{key}` names a {"/".join(sorted(ks))} (it is used as one in this method) but every other acquisition of '
+              f'{t} is keyed by a {major} name: the defaultdict hands out a different lock object, so this region '
+              'is not mutually exclusive with the other writers of the same rows (lost update / resurrected state)',
+              construct=f'{t}[{"/".join(sorted(ks))}]', func=fi.qualname)
 
 
 def _short(n) -> str:
